@@ -171,6 +171,19 @@ def parseAcc (s : String) : Option (Bytes × Option (Bytes × Nat)) :=
   | [a, h, n] => do pure (← ofHex a, some (← ofHex h, ← n.toNat?))
   | _ => none
 
+def parseHH (s : String) : Option (Bytes × Nat) :=
+  match s.splitOn ":" with
+  | [h, n] => do pure (← ofHex h, ← n.toNat?)
+  | _ => none
+
+def pureAddMomentum : List String → Option String
+  | ["add-momentum", fr, prev, height, hash] => do
+      let fr ← parseHH fr
+      let m : Momentum := ⟨1, 1, ← height.toNat?, 0, 0, ← ofHex hash, ← ofHex prev, [], 0, [], 0, 0⟩
+      let r := addMomentum fr m
+      pure s!"{toHex r.1}:{r.2}"
+  | _ => none
+
 def pureMverify : List String → Option String
   | "mv" :: now :: store :: m :: content :: blocks :: acc :: o :: ctx :: "E" :: erest => do
       let now ← (← stripKey "now" now).toInt?
